@@ -451,6 +451,55 @@ pub fn eval_real<T: ADNum>(e: &E, leaves: &[T], out: &mut Vec<NodeObs<T>>) -> T 
     r
 }
 
+/// the same tree evaluated on the generic `Number` container: leaves are Number::Dual / Number::Dual2, float
+/// operands either stay bare floats (`Number op f64`) or are themselves wrapped (`Number op Number::F64`)
+pub fn eval_number(e: &E, leaves: &[rateslib::dual::Number], wrap_floats: bool) -> rateslib::dual::Number {
+    use rateslib::dual::Number;
+    use num_traits::{Pow, Signed};
+    let ev = |x: &E| eval_number(x, leaves, wrap_floats);
+    match e {
+        E::Leaf(i) => leaves[*i].clone(),
+        E::DD(op, a, b, own) => {
+            let (x, y) = (ev(a), ev(b));
+            binop!(*op, x, y, *own)
+        }
+        E::DF(op, a, f, own) => {
+            let x = ev(a);
+            if wrap_floats {
+                let y = Number::F64(*f);
+                binop!(*op, x, y, *own)
+            } else {
+                let y = *f;
+                binop!(*op, x, y, *own)
+            }
+        }
+        E::FD(op, f, b, own) => {
+            let y = ev(b);
+            if wrap_floats {
+                let x = Number::F64(*f);
+                binop!(*op, x, y, *own)
+            } else {
+                let x = *f;
+                binop!(*op, x, y, *own)
+            }
+        }
+        E::Neg(a, o) => {
+            let x = ev(a);
+            if *o { -x } else { -&x }
+        }
+        E::Pow(a, p, o) => {
+            let x = ev(a);
+            if *o { x.pow(*p) } else { (&x).pow(*p) }
+        }
+        E::Exp(a) => MathFuncs::exp(&ev(a)),
+        E::Log(a) => MathFuncs::log(&ev(a)),
+        E::NormCdf(a) => MathFuncs::norm_cdf(&ev(a)),
+        E::InvNormCdf(a) => MathFuncs::inv_norm_cdf(&ev(a)),
+        E::Abs(a) => Signed::abs(&ev(a)),
+        E::Sum(v) => v.iter().map(|x| ev(x)).sum(),
+    }
+}
+
 pub fn rel_name(r: &VarsRelationship) -> &'static str {
     match r {
         VarsRelationship::ArcEquivalent => "ArcEquivalent",
